@@ -32,6 +32,12 @@ Cells:
              a write.  setattr on a class with a computed name is the cell `dynamic:setattr-on-class`.
   global     also: attribute or item assignment on a module-level object (`STATE.x = v`), and assignment to
              another package module's global through its import (`utils.X = v`)
+  global / classattr  ONE-SHOT objects: a module-level or class-body name bound to a GENERATOR EXPRESSION, to the result of
+             iter / map / filter / zip / reversed / enumerate / an itertools function / a generator function of the package, or to
+             an OPEN FILE (open, os.fdopen, tempfile, io.StringIO/BytesIO ...), also inside a tuple / list / dict literal or a
+             conditional expression.  Consuming is not syntactically different from reading (a `for` loop, a membership test,
+             any(), next(), list(), passing it on), so EVERY function that mentions the name both READS and WRITES the cell
+             (through the bare name, `mod.NAME`, `from .mod import NAME`, `self.NAME` / `cls.NAME`); never benign.
   defaultarg a mutable default argument
   fnattr     an attribute set on a function object
   environ    os.environ[...] written by the package
@@ -117,8 +123,46 @@ LOG_ARG_BUILTINS = {"str", "repr", "len", "int", "float", "bool", "format", "rou
 LOG_ARG_METHODS = {"format", "join", "hex", "decode", "encode", "strip", "upper", "lower", "title"}
 
 
+# calls (by the last component of the called name) whose result is consumed by being read: iterators and open files
+ONE_SHOT_CALLS = {
+    "iter", "map", "filter", "zip", "reversed", "enumerate", "aiter",
+    "count", "cycle", "repeat", "accumulate", "chain", "from_iterable", "compress", "dropwhile", "filterfalse", "groupby", "islice",
+    "pairwise", "starmap", "takewhile", "tee", "zip_longest", "product", "permutations", "combinations",
+    "combinations_with_replacement", "batched",
+    "scandir", "walk", "fwalk", "iglob", "finditer", "iterdir", "glob", "rglob", "iter_modules", "walk_packages",
+    "open", "fdopen", "popen", "Popen", "TemporaryFile", "NamedTemporaryFile", "SpooledTemporaryFile", "BytesIO", "StringIO",
+    "TextIOWrapper", "BufferedReader", "BufferedWriter", "BufferedRandom", "FileIO", "urlopen", "makefile",
+    "reader", "DictReader", "writer", "DictWriter",
+}
+GENERATOR_FUNCTIONS = set()      # short names of the package's generator functions (filled by StateAnalysis.scan)
+
+
+def is_one_shot(v):
+    """an expression whose value is used up by reading it (an iterator, a generator, an open file), possibly inside a literal"""
+    if isinstance(v, ast.GeneratorExp):
+        return True
+    if isinstance(v, ast.Call):
+        name = call_name(v)
+        return name in ONE_SHOT_CALLS or name in GENERATOR_FUNCTIONS
+    if isinstance(v, (ast.Tuple, ast.List, ast.Set)):
+        return any(is_one_shot(x) for x in v.elts)
+    if isinstance(v, ast.Dict):
+        return any(is_one_shot(x) for x in v.values if x is not None)
+    if isinstance(v, ast.IfExp):
+        return is_one_shot(v.body) or is_one_shot(v.orelse)
+    if isinstance(v, ast.BoolOp):
+        return any(is_one_shot(x) for x in v.values)
+    if isinstance(v, ast.NamedExpr):
+        return is_one_shot(v.value)
+    if isinstance(v, ast.Starred):
+        return is_one_shot(v.value)
+    return False
+
+
 def is_mutable_value(v):
     if isinstance(v, (ast.List, ast.Dict, ast.Set, ast.ListComp, ast.DictComp, ast.SetComp)):
+        return True
+    if is_one_shot(v):
         return True
     if isinstance(v, ast.Call):
         f = v.func
@@ -264,6 +308,12 @@ class StateAnalysis:
         module_globals = {}      # module -> {name: cell}
         class_attrs = {}         # attr name -> cell  (class-level shared attributes)
         object_globals = {}      # module -> {name: constructor}  module-level names bound to a constructor call
+        oneshot_globals = {}     # module -> {name}  module-level names bound to an iterator / generator / open file
+        oneshot_attrs = set()    # class-body names bound to one
+        GENERATOR_FUNCTIONS.clear()
+        for f in g.fns.values():
+            if f.name != "<module>" and any(isinstance(x, (ast.Yield, ast.YieldFrom)) for x in ast.walk(f.node)):
+                GENERATOR_FUNCTIONS.add(f.name)
         # pass 1: declarations
         for fn in sorted(os.listdir(pdir)):
             if not fn.endswith(".py"):
@@ -272,15 +322,30 @@ class StateAnalysis:
             tree = ast.parse(open(os.path.join(pdir, fn), encoding="utf-8").read())
             module_globals[mod] = {}
             object_globals[mod] = {}
+            oneshot_globals[mod] = set()
             for node in scope_statements(tree.body):
                 bd = bindings(node)
                 if bd is None or not is_mutable_value(bd[1]):
                     continue
                 for t in bd[0]:
-                    if isinstance(t, ast.Name) and not (t.id.startswith("__") and t.id.endswith("__")):
+                    names = [t] if isinstance(t, ast.Name) else \
+                        ([x for x in ast.walk(t) if isinstance(x, ast.Name)] if isinstance(t, (ast.Tuple, ast.List)) and is_one_shot(bd[1]) else [])
+                    for t in names:
+                        if t.id.startswith("__") and t.id.endswith("__"):
+                            continue
                         module_globals[mod][t.id] = self.cell(f"global:{mod}.{t.id}", "global")
                         if isinstance(bd[1], ast.Call):
                             object_globals[mod][t.id] = call_name(bd[1]) or "?"
+                        if is_one_shot(bd[1]):
+                            oneshot_globals[mod].add(t.id)
+                # `with open(p) as FD:` at module level binds an open file
+            for node in scope_statements(tree.body):
+                if isinstance(node, (ast.With, ast.AsyncWith)):
+                    for it in node.items:
+                        if isinstance(it.optional_vars, ast.Name) and is_one_shot(it.context_expr):
+                            nm = it.optional_vars.id
+                            module_globals[mod][nm] = self.cell(f"global:{mod}.{nm}", "global")
+                            oneshot_globals[mod].add(nm)
             for node in ast.walk(tree):
                 if isinstance(node, ast.Global):
                     for n in node.names:
@@ -295,9 +360,12 @@ class StateAnalysis:
                 for t in bd[0]:
                     if isinstance(t, ast.Name):
                         declared.setdefault(t.id, []).append(cq)
+                        if is_one_shot(bd[1]):
+                            oneshot_attrs.add(t.id)
         for name, owners in declared.items():
             if not self.rebound_per_instance(name, owners):
                 class_attrs[name] = self.cell(f"classattr:{name}", "classattr")
+        oneshot_attrs &= set(class_attrs)
         for q, f in g.fns.items():
             node = f.node
             for d in getattr(node, "decorator_list", []):
@@ -353,6 +421,7 @@ class StateAnalysis:
                         key = t.slice.value if isinstance(t.slice, ast.Constant) else "*"
                         self.w(q, self.cell(f"environ:{key}", "environ"))
         self.module_globals, self.class_attrs, self.object_globals = module_globals, class_attrs, object_globals
+        self.oneshot_globals, self.oneshot_attrs = oneshot_globals, oneshot_attrs
         # module-level names bound to logging.getLogger(..): the receivers of logging calls
         self.logger_names = {}
         for fn in sorted(os.listdir(pdir)):
@@ -493,6 +562,7 @@ class StateAnalysis:
     def scan_function(self, q, f):
         node = f.node
         mg = self.module_globals.get(f.module, {})
+        oneshot = self.oneshot_globals.get(f.module, set())
         local_names = {a.arg for a in getattr(node.args, "args", [])} if hasattr(node, "args") else set()
         for n in ast.walk(node):
             if isinstance(n, ast.Assign):
@@ -528,6 +598,8 @@ class StateAnalysis:
                         self.w(q, mg[n.id])
                 else:
                     self.fl(q, mg[n.id])
+                    if n.id in oneshot:
+                        self.w(q, mg[n.id])      # reading an iterator / generator / open file uses it up
             if isinstance(n, ast.Call) and isinstance(n.func, ast.Attribute):
                 root, chain = self.g.root_of(n.func)
                 hit = self.object_global(f, root, chain, local_names - declared_global)
@@ -566,13 +638,20 @@ class StateAnalysis:
                 imp = self.g.mod_imports[f.module].get(n.value.id)
                 if imp and imp[0] == "pkgmod" and n.attr in self.module_globals.get(imp[1], {}) and n.value.id not in local_names:
                     self.fl(q, self.module_globals[imp[1]][n.attr])
+                    if n.attr in self.oneshot_globals.get(imp[1], ()):
+                        self.w(q, self.module_globals[imp[1]][n.attr])
             if isinstance(n, ast.Name) and isinstance(n.ctx, ast.Load) and n.id not in local_names:
                 imp = self.g.mod_imports[f.module].get(n.id)
                 if imp and imp[0] == "pkgobj" and imp[2] in self.module_globals.get(imp[1], {}):
                     self.fl(q, self.module_globals[imp[1]][imp[2]])
+                    if imp[2] in self.oneshot_globals.get(imp[1], ()):
+                        self.w(q, self.module_globals[imp[1]][imp[2]])
             # class attribute reads
             if isinstance(n, ast.Attribute) and n.attr in self.class_attrs and isinstance(n.ctx, ast.Load):
-                if id(n) in benign_nodes:
+                if n.attr in self.oneshot_attrs:
+                    self.fl(q, self.class_attrs[n.attr])
+                    self.w(q, self.class_attrs[n.attr])
+                elif id(n) in benign_nodes:
                     self.benign_reads.setdefault(q, set()).add(self.class_attrs[n.attr])
                 else:
                     self.fl(q, self.class_attrs[n.attr])
